@@ -201,8 +201,8 @@ def plan(tier, seed):
         for ident in IDENTS:
             if ident == 'tvd-unit':
                 continue
-            for rep in range(3 if tier == 'quick' else 30):     # tiny / huge length units, almost-uniform spacing
-                cases.append({'cls': cls, 'ident': ident, 'seed': [seed, 5, ci, i], 'geo': ['nano', 'jitter', 'mega'][rep % 3],
+            for rep in range(4 if tier == 'quick' else 32):     # tiny / huge length units, almost-uniform spacing, integer-typed face arrays
+                cases.append({'cls': cls, 'ident': ident, 'seed': [seed, 5, ci, i], 'geo': ['nano', 'jitter', 'mega', 'int'][rep % 4],
                               'ufam': ['sign', 'random'][rep % 2]})
                 i += 1
         for li, name in enumerate(LIMITERS + ['const1']):
@@ -223,7 +223,7 @@ def floors(agg, tier):
         for ident in IDENTS + ['tvd-flux']:
             if agg['cov'].get('ident:%s:%s' % (ident, cls), 0) < 5:
                 out.append('ident:%s:%s < 5' % (ident, cls))
-    for geo in ('nano', 'jitter', 'mega'):
+    for geo in ('nano', 'jitter', 'mega', 'int'):
         if agg['cov'].get('geo:' + geo, 0) < 30:
             out.append('geo:%s < 30' % geo)
     if agg['cov'].get('basis_columns', 0) < 2000:
